@@ -203,6 +203,13 @@ def _r6_literal_and_operator_plumbing(model: RepoModel, rep):
     rep.analysed["operator normalisation sites"] = n_sites
 
 
+AUG_ADJUDICATED = {
+    "lang/typescript_parser.py::Parser.augmented_assignment_expression::`shadow_left[i] = tmp_var <op> shadow_left[i]`::the old value is the first operand":
+        "branch for a parenthesised LIST on the left of a compound assignment, `(a, b) += e`: not an assignable target in TypeScript, so no "
+        "program of the property's domain reaches it",
+}
+
+
 def run(model: RepoModel, rep, tier: str):
     rep.not_decided = ("that equal vocabulary implies equal meaning (semantic equivalence of the lowering), ordering of statements inside "
                        "bodies, correctness of operand values")
@@ -372,6 +379,14 @@ def run(model: RepoModel, rep, tier: str):
     from .c01 import check_tmp_elimination
     check_tmp_elimination(model, rep, "C02.R5")
     _r6_literal_and_operator_plumbing(model, rep)
+    # ------------------------------------------------------------------ R7 / R8 (cross-cutting loop and operand-order rules)
+    from .. import generic2
+    seven_rels = [m.rel for lg, m in fes if lg in gir.SEVEN] + ["lang/common_parser.py"]
+    rep.rule("C02.R7", "no element of a repeated construct is lost: a value a frontend computes for every child of a node (one lowered name, one "
+                       "clause, one field) is handed on inside that iteration, not once after the loop with the last child's value", 100)
+    generic2.check_per_iteration_values(model, rep, "C02.R7", seven_rels)
+    rep.rule("C02.R8", "compound assignment keeps operand order in every frontend: `t op= e` and `place op= e` lower to old-value <op> e", 40)
+    generic2.check_augmented_operand_order(model, rep, "C02.R8", seven_rels, adjudicated=AUG_ADJUDICATED)
 
 
 def _scope_builder_ops(model: RepoModel) -> Set[str]:
